@@ -50,6 +50,14 @@ SEEDS = {
     "c18-3": ("C18", "breadth-first method + raise policy abort + group of >= 2 members (only member 0 saved)", ["C18"]),
     "c19-3": ("C19", "CsvPaths-managed run on a file with blank records observing the data-line total (total_lines, percent)", ["C19"]),
     "c20-3": ("C20", "referenced group with >= 2 members assigning the same variable name and ending with different values", ["C20"]),
+    "c01-4": ("C01", "between/inside/range/beyond with value and both bounds all strings (cells, quoted terms) whose numeric and textual orders differ", ["C01"]),
+    "c02-4": ("C02", "a '+'-list of the shape a+b-c (a range whose left endpoint is the second number collected)", ["C02"]),
+    "c03-4": ("C03", "a file whose first physical line is blank: count_lines()/total_lines() one too low on every line", ["C03"]),
+    "c05-4": ("C05", "validation-mode with fail or no-fail and a stop token that disagrees with it, plus a non-raising error", ["C05"]),
+    "c07-4": ("C07", "fast_forward() on a run that ends without reaching the scan's last line (blank last line, range past the end, empty file, no-run)", ["C07"]),
+    "c08-4": ("C08", "breadth-first run, group >= 2, a member that stops early placed before a member that runs longer", ["C08"]),
+    "c09-4": ("C09", "a member csvpath printing to two or more printer streams (printouts.txt keeps only the last stream's lines)", ["C09"]),
+    "c10-4": ("C10", "reused instance: fast_forward_paths immediately followed by collect_paths (run directory path cached across runs)", ["C10"]),
     "c02-1": ("C02", "lone reversed range whose low bound is 0 ([3-0]) with record 0 non-blank and a later non-blank record in range", ["C02"]),
     "c03-1": ("C03", "first() on a value first seen on line 0 that re-appears later; scan must include line 0", ["C03"]),
     "c05-1": ("C05", "validation-mode whose FIRST token is no-stop, a non-raising error, and at least one more line after it", ["C05"]),
